@@ -51,17 +51,19 @@ TraceMetrics ==
          A == {AlphaOrder[i] : i \in DOMAIN AlphaOrder} \cap DOMAIN e.ci["tpr"]
          hasCI == e.scale # "tiny"
          lim(name, a) == e.ci[name][a]
+         (* a recorded rate is <<n, d>>, d > 0; <<0, 0>> = NaN; d < 0 = "not a small rational" (never right) *)
+         ratesOK == \A r \in AllRates : e.rates[r][2] >= 0
      IN Report(e, Failing({
           <<"C04.raised", e.exc = "">>,
           <<"C04.shape", e.exc # "" \/ e.shape_ok>>,
           (* definitions                                                      *)
           <<"C04.counts", ~okv \/ e.scale # "1" \/
                e.basic = <<bTP(m), bFN(m), bFP(m), bTN(m), bP(m), bN(m), bTOP(m), bTON(m), bPOP(m)>>>>,
-          <<"C04.rate_definition", ~okv \/ \A r \in AllRates : SameQ(e.rates[r], RateOf(AliasOf(r), m))>>,
+          <<"C04.rate_definition", ~okv \/ (ratesOK /\ \A r \in AllRates : SameQ(e.rates[r], RateOf(AliasOf(r), m)))>>,
           (* relations on the recorded values themselves                      *)
-          <<"C04.complements", ~okv \/ \A r \in RateNames :
+          <<"C04.complements", ~okv \/ ~ratesOK \/ \A r \in RateNames :
                SumsToOne(e.rates[r], e.rates[Complement(r)])>>,
-          <<"C04.range", ~okv \/ \A r \in AllRates : InUnit(e.rates[r])>>,
+          <<"C04.range", ~okv \/ ~ratesOK \/ \A r \in AllRates : InUnit(e.rates[r])>>,
           <<"C04.nan_locus", ~okv \/ \A r \in AllRates :
                IsNaN(e.rates[r]) <=> RateDen(AliasOf(r), m) = 0>>,
           <<"C04.ci_formula", ~okv \/ ~hasCI \/ \A name \in CINames : \A a \in A : CIOk(e, name, a)>>,
